@@ -399,6 +399,12 @@ impl Keyring {
             return false;
         }
 
+        // Tabs are removed from every line when a keyring is parsed, so a
+        // name containing one could never be read back.
+        if name.contains('\t') {
+            return false;
+        }
+
         true
     }
 }
